@@ -115,6 +115,14 @@ def run(prop):
         if prop in exp:
             todo.append(("seeded:" + meta.get("id", os.path.basename(os.path.dirname(mp))),
                          os.path.join(os.path.dirname(mp), "patch.diff"), exp[prop], None))
+    # behaviour-preserving refactorings written by independent sub-agents (twins/<ID>/patch.diff): must stay silent
+    import importlib
+    files = set(getattr(importlib.import_module("vp.props." + prop.lower()), "FILES", []))
+    for tp in sorted(glob.glob(os.path.join(core.VERIF, "twins", "*", "patch.diff"))):
+        with open(tp) as f:
+            touched = {l[6:].strip() for l in f if l.startswith("+++ b/")}
+        if touched & files or not files:
+            todo.append(("twin:" + os.path.basename(os.path.dirname(tp)), tp, "silent", None))
     from . import variants
     for v in variants.for_property(prop):
         todo.append(("builtin:" + v["name"], None, v.get("expect", "violation"), v))
@@ -128,7 +136,7 @@ def run(prop):
     info["n_variants"] = len(results)
     info["n_skipped"] = sum(1 for r in results if str(r.get("result", "")).startswith("skipped"))
     info["n_fired_as_expected"] = sum(1 for r in results if r.get("ok") and r.get("expected") == "violation")
-    info["n_silent_twins"] = sum(1 for r in results if r.get("ok") and r.get("expected") == "silent" and r["name"].startswith("builtin:"))
+    info["n_silent_twins"] = sum(1 for r in results if r.get("ok") and r.get("expected") == "silent" and not r["name"].startswith("seeded:"))
     info["n_documented_misses"] = sum(1 for r in results if r.get("ok") and r.get("expected") == "silent" and r["name"].startswith("seeded:"))
     print("-- self-test %s: %d variants, %d fired as expected, %d silent twins, %d documented misses (seeded, value-level), %d skipped, "
           "%d FAILED" % (prop, len(results), info["n_fired_as_expected"], info["n_silent_twins"], info["n_documented_misses"],
